@@ -221,7 +221,7 @@ case_s = st.fixed_dictionaries(
     {
         "method": st.sampled_from(["GET", "GET", "HEAD", "POST"]),
         "version": st.sampled_from(["1.1", "1.1", "1.1", "1.0", "1.0"]),
-        "conn": st.sampled_from([None, None, "close", "keep-alive", "Keep-Alive"]),
+        "conn": st.sampled_from([None, None, None, "close", "Close", "CLOSE", "keep-alive", "Keep-Alive", "KEEP-ALIVE"]),
         "inm": st.sampled_from(["none", "none", "none", "match", "match", "weak", "star", "list", "other"]),
         "post_body": st.binary(max_size=12),
         "prog": weighted((2, free_prog), (4, structured_prog), (2, flush_status_prog)),
